@@ -41,6 +41,14 @@ func (c *connection) onHup(p Poll) error {
 	onRequest := c.onRequestCallback.Load()
 	needCloseByUser := onConnect == nil && onRequest == nil
 	if !needCloseByUser {
+		// Input may have arrived together with the close while a handler task was exiting
+		// (after its last length check), so that no task is left to process it: it must
+		// still be offered to OnRequest. Let a new task drain it; the task runs the
+		// callbacks when it exits.
+		if req, _ := onRequest.(OnRequest); req != nil && !c.inputBuffer.IsEmpty() &&
+			(onConnect == nil || c.getState() != connStateNone) && c.onProcess(nil, req) {
+			return nil
+		}
 		// already PollDetach when call OnHup
 		c.closeCallback(true, false)
 	}
